@@ -1,2 +1,263 @@
-pub fn supervise(_opts: &jjconf::util::Opts) -> Result<(), String> { Err("todo".into()) }
-pub fn worker(_opts: &jjconf::util::Opts, _f: &dyn Fn(&serde_json::Value) -> serde_json::Value) -> Result<(), String> { Err("todo".into()) }
+//! C36 case runner shared by `paths` (revset, fileset) and `jjcli`
+//! (template).  std + serde_json only.
+//!
+//! `supervise`: splits the case file into contiguous shards and runs one
+//! *child process* per shard (`<exe> <worker-cmd> --cases f --from a --to b`),
+//! restarting the child after the case it died on.  A case therefore ends in
+//! exactly one observed outcome:
+//!   ok | err          the parser returned                       (in child)
+//!   panic             the parser panicked (caught in the child)
+//!   timeout           the case exceeded the per-case limit; child exited(3)
+//!   signal            the child was killed (stack overflow -> SIGABRT/SIGSEGV)
+//!   exit              the child exited with an unexpected status
+//! `worker`: runs cases on a thread with a fixed 8 MiB stack (the size of a
+//! default main-thread stack), under a watchdog.
+//!
+//! Output (one record per case, or per batch of plain sentences):
+//!   {"i":idx,"case":{...},"outcome":"ok","kind":"","detail":""}
+//!   {"batch":true,"lang":L,"from":i,"n":k,"outcomes":{"ok":n1,"err":n2}}
+//! Sentence cases ("t":"sent") whose outcome is ok/err are only counted in
+//! batch records; every other case and every other outcome is written out.
+use std::collections::BTreeMap;
+use std::io::BufRead as _;
+use std::io::Write as _;
+use std::os::unix::process::ExitStatusExt as _;
+use std::sync::Arc;
+use std::sync::Mutex;
+use std::sync::atomic::AtomicU64;
+use std::sync::atomic::Ordering;
+use std::time::Duration;
+use std::time::Instant;
+
+use serde_json::Value;
+use serde_json::json;
+
+pub const STACK_BYTES: usize = 8 << 20;
+
+fn arg<'a>(args: &'a [String], key: &str) -> Option<&'a str> {
+    args.iter().position(|a| a == key).and_then(|i| args.get(i + 1)).map(|s| s.as_str())
+}
+
+fn arg_num(args: &[String], key: &str, default: u64) -> u64 {
+    arg(args, key).and_then(|s| s.parse().ok()).unwrap_or(default)
+}
+
+fn read_lines(path: &str) -> Result<Vec<String>, String> {
+    let f = std::fs::File::open(path).map_err(|e| format!("open {path}: {e}"))?;
+    let mut out = vec![];
+    for line in std::io::BufReader::new(f).lines() {
+        let line = line.map_err(|e| e.to_string())?;
+        if !line.trim().is_empty() {
+            out.push(line);
+        }
+    }
+    Ok(out)
+}
+
+/// Result of the parser under test on one case: (outcome, kind, detail).
+pub type Outcome = (String, String, String);
+
+/// Child: run cases [from, to) and append one line per case to --out:
+///   {"i":idx,"outcome":..,"kind":..,"detail":..}
+pub fn worker(args: &[String], parse_case: fn(&Value) -> Outcome) -> Result<(), String> {
+    let lines = read_lines(arg(args, "--cases").ok_or("--cases")?)?;
+    let from = arg_num(args, "--from", 0) as usize;
+    let to = (arg_num(args, "--to", lines.len() as u64) as usize).min(lines.len());
+    let timeout = Duration::from_millis(arg_num(args, "--timeout-ms", 5000));
+    let out_path = arg(args, "--out").ok_or("--out")?.to_string();
+    let out = std::fs::OpenOptions::new()
+        .create(true)
+        .append(true)
+        .open(&out_path)
+        .map_err(|e| format!("open {out_path}: {e}"))?;
+    let out = Arc::new(Mutex::new(out));
+    // (case index + 1, start time in ms since t0); 0 = idle
+    let current = Arc::new(AtomicU64::new(0));
+    let started = Arc::new(AtomicU64::new(0));
+    let t0 = Instant::now();
+    std::panic::set_hook(Box::new(|_| {}));
+    let (out2, current2, started2) = (out.clone(), current.clone(), started.clone());
+    let handle = std::thread::Builder::new()
+        .stack_size(STACK_BYTES)
+        .spawn(move || {
+            for (i, line) in lines.iter().enumerate().take(to).skip(from) {
+                let case: Value = match serde_json::from_str(line) {
+                    Ok(v) => v,
+                    Err(e) => {
+                        let mut f = out2.lock().unwrap();
+                        let _ = writeln!(f, "{}", json!({"i": i, "outcome": "harness-error", "kind": "", "detail": e.to_string()}));
+                        continue;
+                    }
+                };
+                started2.store(t0.elapsed().as_millis() as u64, Ordering::SeqCst);
+                current2.store(i as u64 + 1, Ordering::SeqCst);
+                let r = std::panic::catch_unwind(|| parse_case(&case));
+                current2.store(0, Ordering::SeqCst);
+                let (outcome, kind, detail) = match r {
+                    Ok(o) => o,
+                    Err(e) => {
+                        let msg = if let Some(s) = e.downcast_ref::<&str>() {
+                            s.to_string()
+                        } else if let Some(s) = e.downcast_ref::<String>() {
+                            s.clone()
+                        } else {
+                            "panic".to_string()
+                        };
+                        ("panic".to_string(), String::new(), msg)
+                    }
+                };
+                let mut f = out2.lock().unwrap();
+                let _ = writeln!(f, "{}", json!({"i": i, "outcome": outcome, "kind": kind, "detail": detail}));
+            }
+        })
+        .map_err(|e| e.to_string())?;
+    // watchdog
+    loop {
+        if handle.is_finished() {
+            return handle.join().map_err(|_| "worker thread panicked".to_string());
+        }
+        let cur = current.load(Ordering::SeqCst);
+        if cur != 0 {
+            let since = (t0.elapsed().as_millis() as u64).saturating_sub(started.load(Ordering::SeqCst));
+            if since > timeout.as_millis() as u64 && current.load(Ordering::SeqCst) == cur {
+                let mut f = out.lock().unwrap();
+                let _ = writeln!(f, "{}", json!({"i": cur - 1, "outcome": "timeout", "kind": "", "detail": format!("> {} ms", timeout.as_millis())}));
+                let _ = f.flush();
+                std::process::exit(3);
+            }
+        }
+        std::thread::sleep(Duration::from_millis(20));
+    }
+}
+
+fn run_shard(
+    exe: &std::path::Path,
+    worker_cmd: &str,
+    cases_path: &str,
+    shard_out: &str,
+    from: usize,
+    to: usize,
+    timeout_ms: u64,
+) -> Result<Vec<Value>, String> {
+    let _ = std::fs::remove_file(shard_out);
+    let mut next = from;
+    let mut results: Vec<Value> = vec![];
+    while next < to {
+        let child = std::process::Command::new(exe)
+            .arg(worker_cmd)
+            .args(["--cases", cases_path, "--out", shard_out])
+            .args(["--from", &next.to_string(), "--to", &to.to_string()])
+            .args(["--timeout-ms", &timeout_ms.to_string()])
+            .env("RUST_BACKTRACE", "0")
+            .stdin(std::process::Stdio::null())
+            .stdout(std::process::Stdio::null())
+            .stderr(std::process::Stdio::piped())
+            .output()
+            .map_err(|e| format!("spawn worker: {e}"))?;
+        let done: Vec<Value> = read_lines(shard_out)
+            .unwrap_or_default()
+            .iter()
+            .filter_map(|l| serde_json::from_str(l).ok())
+            .collect();
+        let _ = std::fs::remove_file(shard_out);
+        let mut expect = next;
+        for r in done {
+            if r["i"].as_u64() != Some(expect as u64) {
+                return Err(format!("worker wrote case {} where {expect} was expected", r["i"]));
+            }
+            results.push(r);
+            expect += 1;
+        }
+        next = expect;
+        let status = child.status;
+        if status.success() {
+            if next < to {
+                return Err(format!("worker exited early at case {next} of {to}"));
+            }
+        } else if status.code() == Some(3) {
+            // the timeout record was written by the watchdog; continue after it
+        } else if next < to {
+            let stderr = String::from_utf8_lossy(&child.stderr);
+            let tail: String = stderr.chars().rev().take(300).collect::<Vec<_>>().into_iter().rev().collect();
+            let (outcome, kind) = match status.signal() {
+                Some(sig) => (
+                    "signal",
+                    if stderr.contains("stack overflow") || stderr.contains("overflowed its stack") {
+                        "stack-overflow".to_string()
+                    } else {
+                        format!("signal-{sig}")
+                    },
+                ),
+                None => ("exit", format!("code-{}", status.code().unwrap_or(-1))),
+            };
+            results.push(json!({"i": next, "outcome": outcome, "kind": kind, "detail": tail}));
+            next += 1;
+        } else {
+            return Err(format!("worker failed after its last case: {status}"));
+        }
+    }
+    Ok(results)
+}
+
+/// Parent: `--cases f --out g [--jobs n] [--timeout-ms t] [--batch k]`.
+pub fn supervise(args: &[String], worker_cmd: &str) -> Result<(), String> {
+    let cases_path = arg(args, "--cases").ok_or("--cases")?.to_string();
+    let out_path = arg(args, "--out").ok_or("--out")?.to_string();
+    let jobs = arg_num(args, "--jobs", 4).max(1) as usize;
+    let timeout_ms = arg_num(args, "--timeout-ms", 5000);
+    let batch = arg_num(args, "--batch", 1000).max(1) as usize;
+    let lines = read_lines(&cases_path)?;
+    let n = lines.len();
+    let exe = std::env::current_exe().map_err(|e| e.to_string())?;
+    let per = n.div_ceil(jobs).max(1);
+    let mut handles = vec![];
+    for j in 0..jobs {
+        let (from, to) = ((j * per).min(n), ((j + 1) * per).min(n));
+        if from >= to {
+            continue;
+        }
+        let (exe, cases_path, worker_cmd) = (exe.clone(), cases_path.clone(), worker_cmd.to_string());
+        let shard_out = format!("{out_path}.shard{j}");
+        handles.push(std::thread::spawn(move || {
+            run_shard(&exe, &worker_cmd, &cases_path, &shard_out, from, to, timeout_ms)
+        }));
+    }
+    let mut results: Vec<Value> = vec![];
+    for h in handles {
+        results.extend(h.join().map_err(|_| "supervisor thread panicked".to_string())??);
+    }
+    if results.len() != n {
+        return Err(format!("{} results for {n} cases", results.len()));
+    }
+    let mut out = std::io::BufWriter::new(std::fs::File::create(&out_path).map_err(|e| e.to_string())?);
+    // batch the uneventful sentence cases
+    let mut pending: Option<(String, usize, usize, BTreeMap<String, u64>)> = None; // lang, from, n, counts
+    let flush = |p: &mut Option<(String, usize, usize, BTreeMap<String, u64>)>, out: &mut dyn std::io::Write| {
+        if let Some((lang, from, n, counts)) = p.take() {
+            let _ = writeln!(out, "{}", json!({"batch": true, "lang": lang, "from": from, "n": n, "outcomes": counts}));
+        }
+    };
+    for (i, r) in results.iter().enumerate() {
+        let case: Value = serde_json::from_str(&lines[i]).map_err(|e| e.to_string())?;
+        let outcome = r["outcome"].as_str().unwrap_or("?");
+        let plain = case["t"].as_str() == Some("sent") && (outcome == "ok" || outcome == "err");
+        if plain {
+            let lang = case["lang"].as_str().unwrap_or("?").to_string();
+            let same = matches!(&pending, Some((l, _, k, _)) if *l == lang && *k < batch);
+            if !same {
+                flush(&mut pending, &mut out);
+                pending = Some((lang, i, 0, BTreeMap::new()));
+            }
+            let p = pending.as_mut().unwrap();
+            p.2 += 1;
+            *p.3.entry(outcome.to_string()).or_insert(0) += 1;
+        } else {
+            flush(&mut pending, &mut out);
+            writeln!(out, "{}", json!({"batch": false, "i": i, "case": case, "outcome": outcome,
+                "kind": r["kind"], "detail": r["detail"]}))
+            .map_err(|e| e.to_string())?;
+        }
+    }
+    flush(&mut pending, &mut out);
+    out.flush().map_err(|e| e.to_string())
+}
